@@ -1,7 +1,7 @@
 """Dynamic witnesses for the defects of DESIGN.md §7 (triage evidence only, not a check)."""
 import sys, warnings, copy, io as _io, contextlib, traceback
 warnings.filterwarnings('ignore')
-sys.path.insert(0, '/repo')
+import os; sys.path.insert(0, os.environ.get('EAO_REPO', '/repo'))
 import numpy as np, pandas as pd, datetime as dt
 import eaopack as eao
 from eaopack import serialization as ser
@@ -50,11 +50,17 @@ def D2b():
 @witness
 def D3():
     tg = grid(); pr = sine(tg)
-    orders = {'start': [pd.Timestamp(2021, 1, 1, 2), pd.Timestamp(2022, 1, 1, 2), pd.Timestamp(2021, 1, 1, 5)],
-              'end':   [pd.Timestamp(2021, 1, 1, 4), pd.Timestamp(2022, 1, 1, 4), pd.Timestamp(2021, 1, 1, 8)],
-              'capa': [1., 1., -2.], 'price': [3., 1., 50.]}
-    op = eao.portfolio.Portfolio([A.OrderBook(name='ob', nodes=N1, orders=orders), sc('a')]).setup_optim_problem(pr, tg)
-    return f"variables={len(op.c)} distinct mapping indices={op.mapping.index.nunique()} (order 2 lies outside the horizon)"
+    def build(with_outside):
+        st = [pd.Timestamp(2021, 1, 1, 2), pd.Timestamp(2022, 1, 1, 2), pd.Timestamp(2021, 1, 1, 5)]
+        en = [pd.Timestamp(2021, 1, 1, 4), pd.Timestamp(2022, 1, 1, 4), pd.Timestamp(2021, 1, 1, 8)]
+        ca = [1., 1., -2.]; pc = [3., 1., 50.]
+        keep = [0, 1, 2] if with_outside else [0, 2]
+        orders = {'start': [st[k] for k in keep], 'end': [en[k] for k in keep], 'capa': [ca[k] for k in keep], 'price': [pc[k] for k in keep]}
+        return eao.portfolio.Portfolio([A.OrderBook(name='ob', nodes=N1, orders=orders), sc('a')])
+    op = build(True).setup_optim_problem(pr, tg)
+    first_a = op.mapping.index[op.mapping['asset'] == 'a'].min()
+    v_with = op.optimize().value; v_without = build(False).setup_optim_problem(pr, tg).optimize().value
+    return f"3 orders (one outside the horizon): contract's first variable is no. {first_a} (3 expected); value with the outside order {v_with:.3f}, without it {v_without:.3f}"
 
 def _rt(obj):
     s = ser.to_json(obj); o = ser.load_from_json(s); return 'same JSON after reload' if ser.to_json(o) == s else 'JSON differs after reload'
@@ -207,6 +213,7 @@ def D23():
     tg = grid(2); pr = sine(tg); pf = eao.portfolio.Portfolio([sc('a'), sc('b')])
     res = pf.setup_optim_problem(pr, tg).optimize(); fw = {'I': dt.datetime(2021, 1, 1, 5), 'x': res.x}
     pf.setup_split_optim_problem(pr, tg, interval_size='d', fix_time_window=fw)
+    if isinstance(fw['I'], dt.datetime): return "caller's fix_time_window['I'] is still the date"
     return f"caller's fix_time_window['I'] is now {type(fw['I']).__name__} of length {len(fw['I'])} (was a date; first interval's mask reused for all)"
 
 @witness
@@ -273,6 +280,12 @@ def D29():
     orders = {'start': [pd.Timestamp(2021, 1, 1, 2)], 'end': [pd.Timestamp(2021, 1, 1, 4)], 'capa': [1.], 'price': [3.]}
     A.OrderBook(name='ob', nodes=N1, orders=orders).setup_optim_problem(pr, tgz)
     return 'no error'
+
+@witness
+def D30():
+    tg = A.Timegrid(dt.date(2021, 3, 22), dt.date(2021, 4, 5), freq='d', main_time_unit='h', timezone='CET')
+    op = sc('c', min_cap=-1, max_cap=1, freq='7d').setup_optim_problem({'p': np.ones(tg.T)}, tg)
+    return f"daily CET grid over the DST switch (one 23 h day), weekly asset: weights per week sum to {np.round(op.mapping.groupby(level=0).disp_factor.sum().values, 5)} (1 expected)"
 
 if __name__ == '__main__':
     which = sys.argv[1:] or list(W)
